@@ -71,8 +71,12 @@ def batches(npool, maxlen):
             yield b
 
 
+_TIER = ["quick"]
+
+
 def run_transform_case(sname, cfg, pname, seed, tier, res=None, only=None):
     vio = []
+    _TIER[0] = tier
     try:
         s, m = build_case(sname, cfg, pname, seed)
     except Exception as e:
@@ -113,13 +117,13 @@ def run_transform_case(sname, cfg, pname, seed, tier, res=None, only=None):
                 lst.append(None)
         ref[direction] = lst
         ref[direction + "_src"] = src
-    blist = [tuple(only["batch"])] if only else list(batches(npool, maxlen))
+    # one object serves the whole enumeration (as a user's model would): a replay re-runs the same sequence of calls and keeps the
+    # finding of the recorded batch, so that a defect that needs the earlier calls (state kept between calls) replays identically
+    blist = list(batches(npool, maxlen))
     for direction in ("forward", "inverse"):
         if direction not in ref or any(r is None for r in ref[direction]):
             if res is not None and direction in ref:
                 bump(res["skipped"], "singleton %s raises (C02/C17's subject)" % direction)
-            continue
-        if only and only["direction"] != direction:
             continue
         src = ref[direction + "_src"]
         for b in blist:
@@ -157,11 +161,13 @@ def run_transform_case(sname, cfg, pname, seed, tier, res=None, only=None):
                 vio.append(_v(sname, sig, direction, "row depends on the rest of the batch", cfg, pname, seed, b, "%s: %s" % (direction, bad)))
     if res is not None and not res["samples"]:
         res["samples"].append({"subject": sname, "cfg": cfg, "pattern": pname, "pool": [[float(v) for v in r] for r in xs], "batch": [0, 2, 1]})
+    if only:
+        vio = [v for v in vio if v["case"]["batch"] == list(only["batch"]) and v["case"]["direction"] == only["direction"]]
     return vio
 
 
 def _v(sname, sig, direction, sym, cfg, pname, seed, b, msg):
-    return {"key": "%s|%s|%s|%s" % (sname, sig, direction, sym), "case": {"kind": "transform", "subject": sname, "cfg": cfg, "pattern": pname, "seed": seed, "batch": list(b), "direction": direction},
+    return {"key": "%s|%s|%s|%s" % (sname, sig, direction, sym), "case": {"kind": "transform", "subject": sname, "cfg": cfg, "pattern": pname, "seed": seed, "batch": list(b), "direction": direction, "tier": _TIER[0]},
             "msg": "%s cfg=%s pattern=%s: %s" % (sname, cfg, pname, msg)}
 
 
@@ -170,6 +176,7 @@ def _v(sname, sig, direction, sym, cfg, pname, seed, b, msg):
 
 def run_dist_case(dname, cfg, pname, seed, tier, res=None, only=None):
     vio = []
+    _TIER[0] = tier
     d = DC.DSUBJECTS[dname]
     try:
         obj = DC.materialise(d, cfg, pname, seed)
@@ -203,9 +210,7 @@ def run_dist_case(dname, cfg, pname, seed, tier, res=None, only=None):
             if res is not None:
                 bump(res["skipped"], "singleton %s raises (C05/C18's subject)" % name)
             continue
-        blist = [tuple(only["batch"])] if only else list(batches(npool, maxlen))
-        if only and only["direction"] != name:
-            continue
+        blist = list(batches(npool, maxlen))
         for b in blist:
             idx = torch.tensor(b)
             if res is not None:
@@ -219,7 +224,7 @@ def run_dist_case(dname, cfg, pname, seed, tier, res=None, only=None):
                 with torch.no_grad():
                     out = fn(X[idx], None if CT is None else CT[idx])
             except Exception as e:
-                vio.append({"key": "%s|%s|%s|batch raises %s" % (dname, sig, name, type(e).__name__), "case": {"kind": "dist", "subject": dname, "cfg": cfg, "pattern": pname, "seed": seed, "batch": list(b), "direction": name},
+                vio.append({"key": "%s|%s|%s|batch raises %s" % (dname, sig, name, type(e).__name__), "case": {"kind": "dist", "subject": dname, "cfg": cfg, "pattern": pname, "seed": seed, "batch": list(b), "direction": name, "tier": _TIER[0]},
                             "msg": "%s cfg=%s: %s on batch %s raised %s: %s although every row evaluates alone" % (dname, cfg, name, list(b), type(e).__name__, str(e)[:100])})
                 continue
             bad = None
@@ -242,8 +247,10 @@ def run_dist_case(dname, cfg, pname, seed, tier, res=None, only=None):
             if res is not None:
                 bump(res["outcomes"], "%s:%s" % (name, "violation" if bad else "ok"))
             if bad:
-                vio.append({"key": "%s|%s|%s|row depends on the rest of the batch" % (dname, sig, name), "case": {"kind": "dist", "subject": dname, "cfg": cfg, "pattern": pname, "seed": seed, "batch": list(b), "direction": name},
+                vio.append({"key": "%s|%s|%s|row depends on the rest of the batch" % (dname, sig, name), "case": {"kind": "dist", "subject": dname, "cfg": cfg, "pattern": pname, "seed": seed, "batch": list(b), "direction": name, "tier": _TIER[0]},
                             "msg": "%s cfg=%s pattern=%s: %s: %s" % (dname, cfg, pname, name, bad)})
+    if only:
+        vio = [v for v in vio if v["case"]["batch"] == list(only["batch"]) and v["case"]["direction"] == only["direction"]]
     return vio
 
 
@@ -267,6 +274,7 @@ def run_unit(unit):
 
 
 def replay(case):
+    tier = case.get("tier") or ("thorough" if max(case["batch"]) >= 3 or len(case["batch"]) > 3 else "quick")
     if case["kind"] == "transform":
-        return run_transform_case(case["subject"], case["cfg"], case["pattern"], case["seed"], "thorough" if max(case["batch"]) >= 3 or len(case["batch"]) > 3 else "quick", None, only=case)
-    return run_dist_case(case["subject"], case["cfg"], case["pattern"], case["seed"], "thorough" if max(case["batch"]) >= 3 or len(case["batch"]) > 3 else "quick", None, only=case)
+        return run_transform_case(case["subject"], case["cfg"], case["pattern"], case["seed"], tier, None, only=case)
+    return run_dist_case(case["subject"], case["cfg"], case["pattern"], case["seed"], tier, None, only=case)
